@@ -26,7 +26,8 @@ RealAccs(rr) == [i \in 1..Len(rr.acc) |-> RealAcc(rr.acc[i])]
 Robust(en, rr, len, hint) ==
   /\ Rep(en, "panic", rr.end # "panic")
   /\ Rep(en, "alloc", \A k \in 1..Len(rr.bufreq) : rr.bufreq[k] <= MaxFrame)
-  /\ Rep(en, "heap", rr.heap <= HeapBase + HeapPerByte * len + 2 * Sum(rr.bufreq) + HeapPerHint * hint)
+  /\ (\A k \in 1..Len(rr.bufreq) : rr.bufreq[k] <= MaxFrame) =>      \* (else "alloc" has failed; avoids 32-bit overflow)
+       Rep(en, "heap", rr.heap <= HeapBase + HeapPerByte * len + 2 * Sum(rr.bufreq) + HeapPerHint * hint)
 
 Judge(en, rr, dd, len) ==
   LET ra == RealAccs(rr)  n == Len(dd.acc)
